@@ -103,6 +103,24 @@ def handleE (line : String) : Except String String := do
     let implLogs := match arrF st "logs" with
       | .ok l => l.filterMap (fun x => x.getStr?.toOption)
       | .error _ => []
+    -- the tables of the real fixpoint (expression propagation only)
+    let realTables : Option TableMap ← match (field st "tables").toOption with
+      | none => pure none
+      | some tj => do
+        let rows ← match tj.getArr? with | .ok a => pure a.toList | .error e => throw e
+        let m ← mapM' (fun (row : Json) => do
+          let parts ← match row.getArr? with | .ok a => pure a.toList | .error e => throw e
+          match parts with
+          | [tidJ, entriesJ] =>
+            let tid ← parseTid tidJ
+            let es ← match entriesJ.getArr? with | .ok a => pure a.toList | .error e => throw e
+            let entries ← mapM' (fun (ej : Json) => do
+              match (← match ej.getArr? with | .ok a => pure a.toList | .error e => throw e) with
+              | [vj, xj] => do return ((← parseVariable vj), (← parseExpression xj))
+              | _ => throw "table entry") es
+            return (tid, some entries)
+          | _ => throw "table row") rows
+        pure (some m)
     match ← parseOut (← field st "out") with
     | some (.error msg) =>
       acc := acc.addSpec s!"{pass}-{(msg.splitOn "_").head!}" (shorten msg)
@@ -135,9 +153,29 @@ def handleE (line : String) : Except String String := do
           let mc := closeProgram cur m
           let oc := closeProgram cur out
           if mc == oc then acc := { acc with tags := "prop-model-up-to-order" :: acc.tags }
+          else if realTables.isSome then
+            -- the fixpoint result may depend on the visiting order; the real tables are checked below
+            acc := { acc with tags := "prop-model-differs-fixpoint-order" :: acc.tags }
           else acc := acc.addDiff "prop-model" (shorten (firstDiff mc oc))
         else if m != out then acc := acc.addDiff s!"{pass}-model" (shorten (firstDiff m out))
         else acc := acc.addDiff s!"{pass}-logs" (shorten s!"model={mlogs} impl={implLogs}")
+      -- expression propagation: the tables of the real fixpoint
+      match realTables with
+      | none => pure ()
+      | some rt =>
+        let p₁ := mergeAssignmentsProgram cur
+        -- (a) the real pass output is the model's block-local insertion of the real tables
+        let ins := propagateProgramWith rt p₁
+        if ins == out then acc := { acc with tags := "prop-insertion-syntactic" :: acc.tags }
+        else if closeProgramWith rt ins == closeProgramWith rt out then
+          acc := { acc with tags := "prop-insertion-up-to-order" :: acc.tags }
+        else acc := acc.addDiff "prop-insertion" (shorten (firstDiff (closeProgramWith rt ins) (closeProgramWith rt out)))
+        -- (b) the real tables are a post-fixpoint of the model's transfer functions (soundness condition)
+        if tablesClosed p₁ rt then acc := { acc with tags := "prop-tables-closed" :: acc.tags }
+        else acc := acc.addDiff "prop-tables-not-closed" "the tables of the real fixpoint are not a post-fixpoint of the model transfer"
+        -- (c) they normally equal the tables of the model's own iteration
+        if tableMapsAgree p₁ rt (computeTables p₁) then acc := { acc with tags := "prop-tables-equal" :: acc.tags }
+        else acc := { acc with tags := "prop-tables-differ-by-iteration-order" :: acc.tags }
       cur := out
   -- the whole `normalize_optimize` (given when it differs from the chain of the single passes)
   match (field j "full").toOption with
